@@ -60,12 +60,15 @@ fn tree_shapes() -> BS<usize> {
 }
 
 fn chain_cfg(tier: Tier, faults: bool) -> gen::ChainCfg {
-    let script = prop_oneof![gen::t_p2pkh(), gen::t_p2sh(), gen::t_witness(false), Just(vec![0x51u8]).boxed()].boxed();
+    // mostly tiny scripts (hundreds of txs per block), sometimes lengths on the CompactSize boundary:
+    // the raw length encoding is part of what a txid covers
+    let script = prop_oneof![6 => gen::t_p2pkh(), 4 => gen::t_p2sh(), 4 => gen::t_witness(false), 4 => Just(vec![0x51u8]).boxed(), 1 => prop_oneof![Just(0xfcusize), Just(0xfdusize), Just(0xfeusize), Just(0x100usize)].prop_flat_map(gen::bytes)].boxed();
     let mut cfg = gen::ChainCfg::new(tier, script);
     cfg.nblocks = (1usize..=7).boxed();
     cfg.ntx = tree_shapes();
     cfg.tx.max_common = 2;
-    cfg.tx.scriptsig_len = (0usize..6).boxed();
+    cfg.tx.scriptsig_len = prop_oneof![40 => 0usize..6, 1 => prop_oneof![Just(0xfcusize), Just(0xfdusize), Just(0xfeusize)]].boxed();
+    cfg.tx.big_counts = !faults;
     cfg.tx.allow_segwit = !faults;
     cfg.real_genesis = Just(true).boxed();
     cfg
